@@ -264,6 +264,17 @@ def delete_abort_signature(run):
     return all(x.startswith("answers of the live store changed") for x in run.get("fail") or [])
 
 
+VARIANT_FINDINGS = [(1, "C03-replace-delete-abort"), (2, "C03-unordered-delete-gap"), (4, "C03-stale-intent-log")]
+
+
+def stale_log_signature(run):
+    """the SYNC of the intent log fails (the replacement is given up, the complete log stays), the store lives on and runs another
+    reorganisation, then restarts; the failure shows after the restart (rows twice in the ordered files, older values back)"""
+    f = run.get("failed") or {}
+    return run.get("kind") == "error-then" and f.get("class") == "logsync" and bool(run.get("then")) and \
+        all(x.startswith("answers changed after restart") or x.startswith("ordered files not time-ordered") for x in run.get("fail") or [])
+
+
 def unordered_gap_signature(run):
     """after a completed replacement (intent log removed) the removal of an out-of-order input that is NOT the newest input
     returns an I/O error while newer inputs are removed; the failure shows only after restart"""
@@ -474,6 +485,10 @@ def main(ck):
             if delete_abort_signature(r) and ck.match_finding("C03-replace-delete-abort"):
                 ck.known_finding("C03-replace-delete-abort", "an I/O error while ReplaceFiles deletes the old files leaves the live store "
                                                              "without the rows of the files handled so far (until restart)")
+                f_known += 1
+            elif stale_log_signature(r) and ck.match_finding("C03-stale-intent-log"):
+                ck.known_finding("C03-stale-intent-log", "a failed sync of the intent log leaves the complete log behind; the store reorganises "
+                                                         "again and the next start-up rolls the stale log forward (rows twice, older values back)")
                 f_known += 1
             elif unordered_gap_signature(r) and ck.match_finding("C03-unordered-delete-gap"):
                 ck.known_finding("C03-unordered-delete-gap", "an I/O error on removing an older out-of-order input after a merge, while newer "
@@ -690,31 +705,33 @@ def main(ck):
         fcanary = False
     if fcanary:
         rc2, o = fres.pop()
-        tups = eval_tuples(o, rc2, 5)
+        tups = eval_tuples(o, rc2, 4)
         if tups is None or {t[0] for t in tups} != set(range(NCAN2)):
             ck.broken.append("C03 fault canary: a corrupted case was not reported by the fault model evaluation (read back: %s)"
                              % (o[-300:] if tups is None else sorted(tups)[:NCAN2]))
     fmism = []
-    f_current = 0
-    f_current_u = 0
+    f_variant = {}
     for idx, (rc2, o) in enumerate(fres):
-        tups = eval_tuples(o, rc2, 5)
+        tups = eval_tuples(o, rc2, 4)
         if tups is None:
             ck.broken.append("fault model evaluation failed on shard %d: %s" % (idx, o[-400:]))
             continue
-        for a, b, c, d, e in tups:
+        for a, b, c, mask in tups:
             fi, _, runs = fmod[idx * fshard + a]
             if c == 60:
                 fmism.append((fi, runs[0], c))
-            elif d == 0:
-                f_current_u += 1    # delete loop repaired, deleteUnorderedFiles as today (finding C03-unordered-delete-gap)
-                if not ck.match_finding("C03-unordered-delete-gap"):
-                    fmism.append((fi, runs[b], c))
-            elif e == 0:
-                f_current += 1      # the tree implements yesterday's delete loop of ReplaceFiles as well
-                if not ck.match_finding("C03-replace-delete-abort"):
-                    fmism.append((fi, runs[b], c))
-            else:
+                continue
+            # the variant combinations that explain the run (bit k of mask; k = 1*delete-loop + 2*unordered-deletion + 4*failed-log,
+            # each 1 = the unrepaired code); a run is accepted if one of them uses unrepaired parts only for OPEN findings
+            accepted = False
+            for k in range(1, 8):
+                if mask >> k & 1 and all(ck.match_finding(fid) for bit, fid in VARIANT_FINDINGS if k & bit):
+                    accepted = True
+                    for bit, fid in VARIANT_FINDINGS:
+                        if k & bit:
+                            f_variant[fid] = f_variant.get(fid, 0) + 1
+                    break
+            if not accepted:
                 fmism.append((fi, runs[b], c))
     if fmism and not oracle and not col_viol and not f_viol and not cur_viol:
         fi, r, code = fmism[0]
@@ -749,8 +766,7 @@ def main(ck):
             k = r["kind"] + ("/" + (r.get("failed") or {}).get("class", "-") if r["kind"] == "error" else "")
             fhist[k] = fhist.get(k, 0) + 1
     ck.cov["fault_cases"] = {"cases": len(faults), "runs": nfruns, "histogram": fhist, "cases_compared_with_fault_model": len(fmod),
-                             "model_mismatches": len(fmism), "runs_matching_variant_current_only": f_current,
-                             "runs_matching_todays_unordered_deletion_only": f_current_u,
+                             "model_mismatches": len(fmism), "runs_explained_only_by_an_unrepaired_variant": f_variant,
                              "known_finding_failures": f_known}
     nimg += nfruns
     ck.cov["cursor_cases"] = {"cases": len(curs), "crash_images_read_through_cursors": sum(c.get("images", 0) for c in curs),
